@@ -845,6 +845,36 @@ def r01_8(ck, rf):
             ck.require(ok, 'R01.8', uc, r,
                        'without a condition path the process always runs',
                        'update_condition does not default to True', r)
+    # the condition variable is declared so that the process runs until it
+    # is switched off: default True, settable (updater 'set')
+    pi = ck.fn('Process.__init__', 'core.process')
+    decl = None
+    for d in ast.walk(pi.node):
+        if isinstance(d, ast.Dict) and any(
+                isinstance(k, ast.Constant) and k.value == '_updater'
+                for k in d.keys):
+            decl = d
+    ok = False
+    if decl is not None:
+        kv = {k.value: v for k, v in zip(decl.keys, decl.values)
+              if isinstance(k, ast.Constant)}
+        ok = isinstance(kv.get('_default'), ast.Constant) and \
+            kv['_default'].value is True and isinstance(
+                kv.get('_updater'), ast.Constant) and \
+            kv['_updater'].value == 'set'
+    ck.require(ok, 'R01.8', pi, decl if decl is not None else pi.node.name,
+               "the condition variable is declared with '_default': True "
+               "and '_updater': 'set'",
+               'the condition variable of a conditional process is no '
+               'longer declared as default-True / set: the process starts '
+               'switched off, or switching it accumulates instead of sets')
+    cfgp = cfg_of(pi.node)
+    mo = [c for c in A.calls_in(pi.node, 'merge_overrides')]
+    ok = bool(mo) and any(('truthy', 'self._condition_path') in cfgp.guards(
+        cfgp.node(c)) for c in mo)
+    ck.require(ok, 'R01.8', pi, mo[0] if mo else pi.node.name,
+               'the declaration is merged into the schema overrides exactly '
+               'when a condition path is configured', None)
     ck.require(cond_rets >= 1, 'R01.8', uc, uc.node.name,
                'update_condition consults self.condition_path',
                'update_condition ignores the configured condition path')
